@@ -831,7 +831,8 @@ SPEC = Property(
           "handles, event flags) and every JSON fixture of the suite, written through CharacteristicCacheFile and restored by a new pairing; "
           "every byte prefix of a cache file and structural byte edits that leave it unparsable. Evaluations count every crash point and every "
           "corrupted file. Non-trivial: all crash-point and corruption cases; round trips with >=2 pairings or non-ASCII aliases; databases with "
-          ">=1 link and >=1 non-default value."),
+          ">=1 link and >=1 non-default value. uint64 values up to 2^64-1. BLE: a running pairing on a file cache sees 1..4 advertisements with rising "
+          "configuration / state numbers (GATT table unchanged / new range / new link / new value), restart after every step."),
     layers=[
         Layer("save-crash-points", run_crash, enumerate=enum_crash, exhaustive=True,
               space="4 x 4 (old, new) pairing sets (+ first save without a file) x every effect x every write prefix", min_nontrivial=10),
